@@ -34,7 +34,7 @@ def run(ctx):
     ctx.rule('C09.c-delegation', 'DefaultRate* methods forward to the inner codec; ReedSolomon* methods forward to DefaultRate*<DefaultEngine>')
     for cfg in cfgs:
         facts = ctx.facts(cfg)
-        check(ctx, facts, cfg)
+        ctx.guard('C09.analysable', check, ctx, facts, cfg)
 
 
 def find_decision(ctx, facts, cfg):
